@@ -3,6 +3,8 @@
 //!   | `start` | `msg sym U u pu | p:a … | p:a …` | `end` | `depth k n` (the REST snapshot of instrument `k` is
 //!   cut to the best `n` levels per side, as the code's fetchers request with `limit=100`; from then on the blocks
 //!   that print `book<k>` also print `lv<k>:<b|a>:<price> <amount>` for every price of `venue k`)
+//!   | `reconnect` (a new connection for the same consumer; `msg` / `end` are `bad-op` while no connection is up:
+//!   before the first successful `start`, after a failed `start` of a new connection, after `reconnect`)
 //!
 //! `snap` builds the REST snapshot JSON and parses it with the real `BinanceOrderBookL2Snapshot`;
 //! `start` calls the real `ExchangeTransformer::init` of `BinanceSpotOrderBooksL2Transformer` /
@@ -281,7 +283,11 @@ fn run() {
                     let last: u64 = op[3].parse().expect("u");
                     let pu: u64 = op[4].parse().expect("pu");
                     let (bids, asks) = parse_sides(&op[5..]);
-                    let t = tr.as_mut().expect("msg before start");
+                    // no connection is up (no `start` yet, a failed `start`, or a `reconnect` since): rejected
+                    let Some(t) = tr.as_mut() else {
+                        lines.push("bad-op".into());
+                        continue;
+                    };
                     let outs: Vec<Res> = match t {
                         Tr::Spot(t) => {
                             let json = format!(
@@ -345,7 +351,10 @@ fn run() {
                     lv_lines(lines, "lv", &depths, &uni, &books);
                 }
                 "end" => {
-                    assert!(tr.is_some(), "end before start");
+                    if tr.is_none() {
+                        lines.push("bad-op".into());
+                        continue;
+                    }
                     let key = StreamKey::new("market_stream", exchange(spot), Some("l2"));
                     let outer = futures::stream::iter(vec![futures::stream::iter(all_outs.clone())]);
                     let delivered: Vec<Res> = rt.block_on(
@@ -477,6 +486,35 @@ fn genuine_msg(rng: &mut Rng, spot: bool, sym: usize, v: &[Chg], grid: &[String]
     }
 }
 
+/// input classes of the `d…` family (input-domain audit); `Dom::default()` = the classic families, which draw
+/// exactly the random numbers they always drew
+#[derive(Clone, Copy, Default)]
+struct Dom {
+    /// added to every id of the venue (real ids are ~2e10 spot / ~1e12 futures; boundaries 2^32, 2^53, 2^63, 2^64)
+    offset: u64,
+    /// prices / amounts of extreme but exact magnitude (1e-8 … 1e12, 17+ significant digits)
+    wide: bool,
+    /// the same price written with different scales (`100`, `100.0`, `100.00`) in snapshots and messages
+    restyle: bool,
+    /// non-genuine messages whose ids continue a DELIVERED message (pu = its u, U arbitrary incl. U > u and 0,
+    /// u = its u … u+2) with levels that repeat a price with different amounts
+    cont_garbage: bool,
+    /// `reconnect` after every op kind: before the first connection, after a failed `start`, right after `start`,
+    /// after a `msg` (no `end`), twice in a row
+    reconn: bool,
+}
+
+const OFFSETS: [u64; 8] = [
+    0,
+    (1 << 32) - 20,
+    22_611_425_143,
+    1_000_000_000_000,
+    (1 << 53) - 20,
+    (1 << 63) - 20,
+    u64::MAX - 400,
+    u64::MAX - 1_000_000,
+];
+
 fn amount(rng: &mut Rng, zero_pct: u64) -> String {
     if rng.chance(zero_pct) {
         return (*rng.pick(&["0", "0.0", "0.00000000"])).to_string();
@@ -484,13 +522,43 @@ fn amount(rng: &mut Rng, zero_pct: u64) -> String {
     (*rng.pick(&["1", "0.5", "2.5", "1.25000000", "10"])).to_string()
 }
 
-fn gen_venue(rng: &mut Rng, max_changes: i64) -> (Vec<Chg>, Vec<String>) {
-    let (base, step, scale) = *rng.pick(&[(100i64, 1i64, 0u32), (1000, 5, 1), (99990, 5, 2), (1, 1, 4)]);
+fn amount_dom(rng: &mut Rng, zero_pct: u64, dom: &Dom) -> String {
+    if !dom.wide {
+        return amount(rng, zero_pct);
+    }
+    if rng.chance(zero_pct) {
+        return (*rng.pick(&["0", "0.0", "0.00000000"])).to_string();
+    }
+    (*rng.pick(&["0.00000001", "123456789.12345678", "1000000000000", "1000000000000.00000001", "0.1", "0.30000000", "2.5"])).to_string()
+}
+
+/// another spelling of the same decimal
+fn respell(rng: &mut Rng, d: &str) -> String {
+    let zeros = if rng.chance(50) { "0" } else { "00" };
+    if d.contains('.') { format!("{d}{zeros}") } else { format!("{d}.{zeros}") }
+}
+
+fn restyle_levels(rng: &mut Rng, ls: &mut [String]) {
+    for l in ls.iter_mut() {
+        if rng.chance(25) {
+            let (p, a) = l.split_once(':').expect("level");
+            *l = format!("{}:{a}", respell(rng, p));
+        }
+    }
+}
+
+fn gen_venue(rng: &mut Rng, max_changes: i64, dom: &Dom) -> (Vec<Chg>, Vec<String>) {
+    let (base, step, scale) = if dom.wide {
+        // 1e-8 ticks, 1e12 prices, 12 significant digits, a grid across 1
+        *rng.pick(&[(1i64, 1i64, 8u32), (1_000_000_000_000, 1, 0), (123_456_789_012, 1, 8), (99_999_998, 1, 8)])
+    } else {
+        *rng.pick(&[(100i64, 1i64, 0u32), (1000, 5, 1), (99990, 5, 2), (1, 1, 4)])
+    };
     let count = rng.range(1, 6);
     let grid: Vec<String> = (0..count).map(|i| dec_str(base + i * step, scale)).collect();
     let len = rng.range(1, max_changes);
     let contiguous = rng.chance(50);
-    let mut id = rng.range(0, 3) as u64;
+    let mut id = rng.range(0, 3) as u64 + dom.offset;
     let zero_pct = *rng.pick(&[15u64, 30, 50]);
     let mut v = vec![];
     for _ in 0..len {
@@ -499,7 +567,7 @@ fn gen_venue(rng: &mut Rng, max_changes: i64) -> (Vec<Chg>, Vec<String>) {
             id,
             bid: rng.chance(50),
             price: rng.pick(&grid).clone(),
-            amount: amount(rng, zero_pct),
+            amount: amount_dom(rng, zero_pct, dom),
         });
     }
     (v, grid)
@@ -516,13 +584,17 @@ fn venue_line(k: usize, v: &[Chg]) -> String {
 
 /// the REST snapshot at `s`; `depth = Some(d)`: cut to the best `d` levels per side (highest bids, lowest asks),
 /// what the venue answers to `…&limit=d`
-fn snap_line(op: &str, k: usize, v: &[Chg], s: u64, rng: &mut Rng, depth: Option<usize>) -> String {
+fn snap_line(op: &str, k: usize, v: &[Chg], s: u64, rng: &mut Rng, depth: Option<usize>, dom: &Dom) -> String {
     let d = depth.unwrap_or(usize::MAX);
     let mut b: Vec<String> = side_at(v, s, true).values().map(|(p, a)| format!("{p}:{a}")).collect();
     b.drain(..b.len().saturating_sub(d));
     let mut a: Vec<String> = side_at(v, s, false).values().take(d).map(|(p, a)| format!("{p}:{a}")).collect();
     shuffle(rng, &mut b);
     shuffle(rng, &mut a);
+    if dom.restyle {
+        restyle_levels(rng, &mut b);
+        restyle_levels(rng, &mut a);
+    }
     format!("{op} {k} {s} | {} | {}", b.join(" "), a.join(" "))
 }
 
@@ -589,14 +661,24 @@ fn garbage_side(rng: &mut Rng, grid: &[String]) -> Vec<String> {
     ls
 }
 
-fn gen_random_case(out: &mut Out, rng: &mut Rng, thorough: bool, partial: bool) {
+/// levels of a non-genuine message that may state a price several times with different amounts
+fn garbage_side_dup(rng: &mut Rng, grid: &[String], dom: &Dom) -> Vec<String> {
+    let mut ls = vec![];
+    for _ in 0..rng.range(0, 4) {
+        let p = rng.pick(grid).clone();
+        ls.push(format!("{p}:{}", amount_dom(rng, 30, dom)));
+    }
+    ls
+}
+
+fn gen_random_case(out: &mut Out, rng: &mut Rng, thorough: bool, partial: bool, dom: &Dom) {
     let spot = rng.chance(50);
     let n = *rng.pick(&[1usize, 1, 2, 3]);
     out.line(format!("init {} {n}", if spot { "spot" } else { "fut" }));
-    let garbage = rng.chance(12);
+    let garbage = rng.chance(if dom.cont_garbage { 40 } else { 12 });
     let extras = rng.chance(40);
     // the venues' true histories: the same for every connection of the case
-    let venues: Vec<(Vec<Chg>, Vec<String>)> = (0..n).map(|_| gen_venue(rng, if thorough { 60 } else { 40 })).collect();
+    let venues: Vec<(Vec<Chg>, Vec<String>)> = (0..n).map(|_| gen_venue(rng, if thorough { 60 } else { 40 }, dom)).collect();
     for (k, (v, _)) in venues.iter().enumerate() {
         out.line(venue_line(k, v));
     }
@@ -612,13 +694,32 @@ fn gen_random_case(out: &mut Out, rng: &mut Rng, thorough: bool, partial: bool) 
     }
     // one to three connections: after the first the consumer's local books persist and each new
     // connection starts with a fresh snapshot (re-initialisation after a break / a reconnect)
+    if dom.reconn {
+        // `reconnect` at every position a consumer can re-initialise: before the first connection came up, after a
+        // failed `start`, right after `start`, after a `msg` (the `end` observation left out), twice in a row
+        let connections = rng.range(2, 4);
+        if rng.chance(15) {
+            out.line("reconnect");
+        }
+        for c in 0..connections {
+            if c > 0 {
+                out.line("reconnect");
+                if rng.chance(15) {
+                    out.line("reconnect");
+                }
+            }
+            let fail_init = rng.chance(25);
+            gen_connection(out, rng, spot, n, &venues, &depths, garbage, extras, fail_init, dom);
+        }
+        return;
+    }
     let connections = *rng.pick(&[1usize, 1, 1, 2, 2, 3]);
     for c in 0..connections {
         if c > 0 {
             out.line("reconnect");
         }
         let fail_init = rng.chance(4);
-        if !gen_connection(out, rng, spot, n, &venues, &depths, garbage, extras, fail_init) {
+        if !gen_connection(out, rng, spot, n, &venues, &depths, garbage, extras, fail_init, dom) {
             return;
         }
     }
@@ -636,6 +737,7 @@ fn gen_connection(
     garbage: bool,
     extras: bool,
     fail_init: bool,
+    dom: &Dom,
 ) -> bool {
     let mut deliveries: Vec<Vec<Msg>> = vec![];
     let mut snaps: Vec<String> = vec![];
@@ -669,10 +771,10 @@ fn gen_connection(
             .unwrap_or(base.len());
         if fail_init && k == fail_k {
             if rng.chance(50) {
-                snaps.push(snap_line("snapu", k, &v, s, rng, depths[k]));
+                snaps.push(snap_line("snapu", k, &v, s, rng, depths[k], dom));
             }
         } else {
-            snaps.push(snap_line("snap", k, &v, s, rng, depths[k]));
+            snaps.push(snap_line("snap", k, &v, s, rng, depths[k], dom));
         }
         let mut d = perturb(rng, &base, cover);
         if garbage {
@@ -691,6 +793,35 @@ fn gen_connection(
                 let i = rng.below(d.len() as u64 + 1) as usize;
                 d.insert(i, m);
             }
+        }
+        if dom.cont_garbage && !d.is_empty() {
+            // non-genuine messages that continue a delivered one: futures admits any U once pu = previous u
+            // (also U > u, U = 0, u = previous u); spot needs U = previous u + 1
+            for _ in 0..rng.range(1, 4) {
+                let i = rng.below(d.len() as u64) as usize;
+                let prev = d[i].clone();
+                let last = prev.last + rng.below(3);
+                let first = *rng.pick(&[0, prev.last + 1, prev.last + 1, last + 1, last + 3, prev.first, prev.last]);
+                let pu = *rng.pick(&[prev.last, prev.last, prev.last, prev.pu, last]);
+                let m = Msg {
+                    sym: k,
+                    first,
+                    last,
+                    pu,
+                    bids: garbage_side_dup(rng, &grid, dom),
+                    asks: garbage_side_dup(rng, &grid, dom),
+                };
+                d.insert(i + 1, m);
+            }
+        }
+        if dom.restyle {
+            for m in d.iter_mut() {
+                restyle_levels(rng, &mut m.bids);
+                restyle_levels(rng, &mut m.asks);
+            }
+        }
+        if dom.reconn && rng.chance(10) {
+            d.clear(); // `start` directly followed by `end` / `reconnect`
         }
         deliveries.push(d);
     }
@@ -719,18 +850,20 @@ fn gen_connection(
         out.line(deliveries[k][idx[k]].line());
         idx[k] += 1;
     }
-    out.line("end");
+    if !(dom.reconn && rng.chance(30)) {
+        out.line("end");
+    }
     true
 }
 
 /// small-scope exhaustive: one instrument, snapshot at id 5, every sequence of at most `depth`
 /// messages over a grid of id triples around the snapshot point (levels empty: ids only)
-fn gen_exhaustive(out: &mut Out, id: &mut usize, depth: usize) {
+fn gen_exhaustive(out: &mut Out, id: &mut usize, depth: usize, b: u64, tag: &str) {
     for rules in ["spot", "fut"] {
         let mut alphabet: Vec<(u64, u64, u64)> = vec![];
-        for first in 4..=7u64 {
-            for last in [first, first + 1, 7].into_iter().filter(|l| *l >= first && *l <= 8) {
-                for pu in [first - 1, 5] {
+        for first in b + 4..=b + 7 {
+            for last in [first, first + 1, b + 7].into_iter().filter(|l| *l >= first && *l <= b + 8) {
+                for pu in [first - 1, b + 5] {
                     if !alphabet.contains(&(first, last, pu)) {
                         alphabet.push((first, last, pu));
                     }
@@ -753,10 +886,10 @@ fn gen_exhaustive(out: &mut Out, id: &mut usize, depth: usize) {
         }
         for s in seqs.iter().skip(1) {
             *id += 1;
-            out.case(format!("x{id}"));
+            out.case(format!("{tag}{id}"));
             out.line(format!("init {rules} 1"));
-            out.line("venue 0 5:b:100:1");
-            out.line("snap 0 5 | 100:1 | ");
+            out.line(format!("venue 0 {}:b:100:1", b + 5));
+            out.line(format!("snap 0 {} | 100:1 | ", b + 5));
             out.line("start");
             for (first, last, pu) in s {
                 out.line(format!("msg 0 {first} {last} {pu} | | "));
@@ -772,19 +905,42 @@ fn generate(seed: u64, n_cases: usize, tier: &str) {
     let mut id = 0usize;
     let thorough = tier == "thorough";
     if thorough {
-        gen_exhaustive(&mut out, &mut id, 3);
+        gen_exhaustive(&mut out, &mut id, 3, 0, "x");
     }
+    let classic = Dom::default();
     for _ in 0..n_cases {
         id += 1;
         out.case(format!("r{id}"));
-        gen_random_case(&mut out, &mut rng, thorough, false);
+        gen_random_case(&mut out, &mut rng, thorough, false, &classic);
     }
     // depth-limited snapshots: extra cases from an independent stream (the cases above are unchanged)
     let mut prng = Rng::new(seed ^ 0x9e37_79b9_7f4a_7c15);
     for _ in 0..(n_cases / 4).max(if n_cases > 0 { 10 } else { 0 }) {
         id += 1;
         out.case(format!("p{id}"));
-        gen_random_case(&mut out, &mut prng, thorough, true);
+        gen_random_case(&mut out, &mut prng, thorough, true, &classic);
+    }
+    // input-domain family (a third independent stream; the cases above are unchanged): ids beyond 2^32 / 2^53 /
+    // 2^63 and next to 2^64, extreme exact magnitudes, respelt prices, continuing non-genuine messages,
+    // `reconnect` at every position
+    let mut drng = Rng::new(seed ^ 0x51ed_270b_c0de_d06a);
+    for j in 0..(n_cases / 8).max(if n_cases > 0 { 10 } else { 0 }) {
+        id += 1;
+        out.case(format!("d{id}"));
+        let dom = Dom {
+            // every offset class in turn, so that a short run has them all
+            offset: OFFSETS[j % OFFSETS.len()],
+            wide: drng.chance(50),
+            restyle: drng.chance(50),
+            cont_garbage: drng.chance(40),
+            reconn: drng.chance(40),
+        };
+        let partial = drng.chance(25);
+        gen_random_case(&mut out, &mut drng, thorough, partial, &dom);
+    }
+    if thorough {
+        // the id triples of the small-scope enumeration once more across the 2^32 boundary (snapshot at 2^32 - 1)
+        gen_exhaustive(&mut out, &mut id, 2, (1 << 32) - 6, "y");
     }
     out.flush();
 }
